@@ -485,7 +485,7 @@ def history_failures(pts, hist, limit=6):
 
 
 # ------------------------------------------------------------------ generation
-GN_HEAVY = ["google", "numpy", "google", "numpy", "google", "numpy", "all", "some", "shuffled", "none"]
+GN_HEAVY = ["google", "numpy", "google", "numpy", "google", "numpy", "google", "numpy", "all", "some"]
 
 
 def gen_points(rng, n, batch=0):
@@ -496,7 +496,7 @@ def gen_points(rng, n, batch=0):
     while len(pts) < n + batch:
         std = len(pts) < n
         kw = dict(receiver_names=0.08, type_first=0.3, gn_defaults=0.3, malformed=0.04) if std else \
-            dict(receiver_names=0.03, type_first=0.3, gn_defaults=0.5, malformed=0.3, dmodes=GN_HEAVY)
+            dict(receiver_names=0.03, type_first=0.3, gn_defaults=0.5, malformed=0.4, dmodes=GN_HEAVY)
         extra = [] if std else ["batch"]
         r = rng.random()
         if r < 0.8:
@@ -545,7 +545,7 @@ def _model_requests(p):
 
 
 def oracle(rng, tier):
-    n, nb = (700, 220) if tier == "quick" else (12000, 3000)
+    n, nb = (700, 400) if tier == "quick" else (12000, 5000)
     pts = gen_points(rng, n, nb)
     reqs, idx = [], []
     for i, p in enumerate(pts):
